@@ -254,3 +254,126 @@ pub fn extract_pre_comment(pre_snippet: &str) -> (Option<String>, u8) {
 pub fn has_extra_newline(post_snippet: &str, comment_end: usize) -> bool {
     crate::lists::has_extra_newline(post_snippet, comment_end)
 }
+
+/// Runs `f` with a `RewriteContext` over an empty source text and the given configuration.
+fn with_context<R>(
+    config: &Config,
+    f: impl FnOnce(&crate::rewrite::RewriteContext<'_>) -> R,
+) -> Option<R> {
+    use crate::FormatReport;
+    use crate::config::Verbosity;
+    use crate::parse::parser::Parser;
+    use crate::parse::session::ParseSess;
+    use crate::visitor::{FmtVisitor, SnippetProvider};
+
+    let mut config = config.clone();
+    config.set().verbose(Verbosity::Quiet);
+    config.set().show_parse_errors(false);
+    rustc_span::create_session_if_not_set_then(config.edition().into(), |_| {
+        let mut psess = ParseSess::new(&config).ok()?;
+        let krate = Parser::parse_crate(crate::Input::Text(String::new()), &psess).ok()?;
+        psess.set_silent_emitter();
+        let snippet_provider: SnippetProvider = psess.snippet_provider(krate.spans.inner_span);
+        let visitor =
+            FmtVisitor::from_psess(&psess, &config, &snippet_provider, FormatReport::new());
+        let context = visitor.get_context();
+        Some(f(&context))
+    })
+}
+
+type S = (usize, usize, usize, usize);
+
+fn shape_out(x: Shape) -> S {
+    (x.width, x.indent.block_indent, x.indent.alignment, x.offset)
+}
+
+fn definitive_out(t: DefinitiveListTactic) -> (u8, usize) {
+    match t {
+        DefinitiveListTactic::Vertical => (0, 0),
+        DefinitiveListTactic::Horizontal => (1, 0),
+        DefinitiveListTactic::Mixed => (2, 0),
+        DefinitiveListTactic::SpecialMacro(n) => (3, n),
+    }
+}
+
+/// `struct_lit_shape(shape, context, prefix_width, suffix_width, span)`: `Ok((h_shape, v_shape))`
+/// or `Err(configured_width)`; outer `None`: no context could be built.
+pub fn struct_lit_shape(
+    s: S,
+    config: &Config,
+    prefix_width: usize,
+    suffix_width: usize,
+) -> Option<Result<(Option<S>, S), usize>> {
+    with_context(config, |context| {
+        crate::lists::struct_lit_shape(
+            shape(s),
+            context,
+            prefix_width,
+            suffix_width,
+            rustc_span::DUMMY_SP,
+        )
+        .map(|(h, v)| (h.map(shape_out), shape_out(v)))
+        .map_err(|e| e.configured_width)
+    })
+}
+
+/// `struct_lit_tactic(h_shape, context, items)`.
+pub fn struct_lit_tactic(
+    h_shape: Option<S>,
+    config: &Config,
+    items: &[Item],
+) -> Option<(u8, usize)> {
+    let items: Vec<ListItem> = items.iter().map(list_item).collect();
+    with_context(config, |context| {
+        definitive_out(crate::lists::struct_lit_tactic(
+            h_shape.map(shape),
+            context,
+            &items,
+        ))
+    })
+}
+
+/// `shape_for_tactic(tactic, h_shape, v_shape)` (panics where the code panics).
+pub fn shape_for_tactic(tactic: (u8, usize), h_shape: Option<S>, v_shape: S) -> S {
+    shape_out(crate::lists::shape_for_tactic(
+        definitive(tactic),
+        h_shape.map(shape),
+        shape(v_shape),
+    ))
+}
+
+/// `struct_lit_formatting(shape, tactic, context, force_no_trailing_comma)` as a `Formatting`.
+pub fn struct_lit_formatting(
+    s: S,
+    tactic: (u8, usize),
+    config: &Config,
+    force_no_trailing_comma: bool,
+) -> Option<Formatting> {
+    with_context(config, |context| {
+        let f = crate::lists::struct_lit_formatting(
+            shape(s),
+            definitive(tactic),
+            context,
+            force_no_trailing_comma,
+        );
+        let x = crate::lists::verif_local_wl::formatting_fields(&f);
+        Formatting {
+            tactic: definitive_out(x.0),
+            separator: x.1,
+            trailing_separator: match x.2 {
+                SeparatorTactic::Always => 0,
+                SeparatorTactic::Never => 1,
+                SeparatorTactic::Vertical => 2,
+            },
+            separator_place: match x.3 {
+                SeparatorPlace::Front => 0,
+                SeparatorPlace::Back => 1,
+            },
+            shape: shape_out(x.4),
+            ends_with_newline: x.5,
+            preserve_newline: x.6,
+            nested: x.7,
+            align_comments: x.8,
+        }
+    })
+}
